@@ -157,6 +157,7 @@ class Pipe(object):
         self.arc_samples = arc_samples
         self.last_arc = None
         self._arc_pre = None
+        self.arc_stub = arc_stub
         if arc_stub:
             self._stub_plan_arc()
         if summarise and w.symbolic:
@@ -224,7 +225,7 @@ class Pipe(object):
         rec.v_before = self.V.snapshot()
         self.last_arc = None
         self._arc_pre = None
-        if c.code in ("G2", "G3"):
+        if c.code in ("G2", "G3") and self.arc_stub:
             n = w.choose(self.arc_samples, "arcn") if self.arc_samples > 1 else 0
             self._arc_pre = [w.real("c%d_a%s%d" % (self.k, "xy"[i % 2], i // 2)) for i in range(2 * n)]
         rec.vm = self.V.execute(text)
